@@ -46,9 +46,9 @@ CHECKS = {
    note="Secrets differing only in trailing zero bytes are treated as equal (HMAC pads keys with zeros, so TLS cannot tell them apart). A store that returns a session it was told to delete is not held against the endpoint.",
    technique="deterministic simulation: seeded connection histories over a fault-injecting session store"),
  "C08": dict(level="exploration", design="§5 C08",
-   text="Seeded injection of hostile datagrams (grammar-aware mutants of captured traffic, noise, reassembly floods) at drawn instants of 13 handshake variants and 13 data configurations, towards either endpoint and from spoofed or unrelated addresses. Panics in library goroutines are caught by an injected recover and reported with their stack; runs that never become quiescent again are detected by step/wall budgets and a parent-process watchdog and confirmed in a fresh process; buffer sizes are read through an accessor at quiescent points; with only unparseable or unauthenticatable input the genuine handshake must complete and data must flow.",
-   note="Correctly protected but malformed content from an authenticated peer is not generated yet (needs the independent record layer). Handshake-phase injection of parseable cleartext handshake records may legitimately derail a handshake and is held to the safety clauses only.",
-   technique="deterministic simulation: seeded hostile-datagram injection with crash, livelock and buffer-bound oracles"),
+   text="Seeded injection of hostile datagrams (grammar-aware mutants of captured traffic, tiny complete handshake messages with boundary-valued length prefixes, noise, reassembly floods) at drawn instants of 13 handshake variants and 17 data configurations, towards either endpoint and from spoofed or unrelated addresses; against established sessions of every suite family additionally block-cipher tail and padding constructions computed from captured ciphertext, and content sealed under the peer's real keys by the independent reference record layer that is malformed inside (empty or all-zero inner plaintext, unknown inner types, handshake messages with impossible lengths, odd ACKs, protected change_cipher_spec). Panics in library goroutines are caught by an injected recover and reported with their stack; runs that never become quiescent again are detected by deterministic step and emission budgets and a parent-process watchdog and confirmed in a fresh process; buffer sizes are read through an accessor at quiescent points; with only unparseable or unauthenticatable input the genuine handshake must complete and established sessions must keep delivering data.",
+   note="Handshake-phase injection of parseable cleartext handshake records may legitimately derail a handshake and is held to the safety clauses only, as is keyed malformed content (an endpoint may answer it with a fatal alert and close). Heap growth is bounded through the library's own queue/fragment/table sizes, not by measuring the Go heap.",
+   technique="deterministic simulation: seeded hostile-datagram injection (unauthenticated and reference-keyed) with crash, livelock and buffer-bound oracles"),
  "C13": dict(level="fault_enumeration", design="§5 C13",
    text="A real server is driven by a scripted unauthenticated sender built on a genuine ClientHello: every kind of second ClientHello (cookie absent, wrong, stale, truncated, extended, right cookie with one altered field) after a first one is enumerated for DTLS 1.2, 1.3 and dual-stack servers with several repetition/timing settings, and longer mixed sequences with gaps up to ten virtual minutes and changing source addresses are sampled. Everything the server emits is parsed by the independent wire monitor and compared with a reference predicate for 'valid echo'.",
    note="The sender is a byte-level script (no second protocol stack): cookies are spliced into the captured ClientHello (cookie field for 1.2, cookie extension for 1.3). The bytes-out/bytes-in ratio is not a verdict (the statement bounds the kind of message, not its size).",
@@ -70,9 +70,9 @@ CHECKS = {
    note="'No longer retained' epochs are not probed (which old epochs are retained is implementation policy); only the not-yet-authorised direction is forged. ACK-before-success is a lower-bound check under concurrency (some KeyUpdate record of the caller acknowledged before each success).",
    technique="deterministic simulation: seeded schedule and fault exploration with reference decoding of protected records"),
  "C03": dict(level="fault_enumeration", design="§5 C03",
-   text="Every combination of honest role, version, credential type, verification policy and single authentication deviation (282 cases) is executed with a real peer whose credentials or signing key deviate in exactly that way (wrong CA, name, validity window at the virtual clock, foreign private key, corrupted or mis-targeted signature through a custom crypto.Signer, missing certificate, wrong PSK or identity), on a clean link and under loss/duplication/reordering of the rogue's flights. An independent predicate over policy and deviation decides whether the honest side may succeed.",
-   note="The rogue is the real library with deviating credentials, so deviations that need a peer which omits a message yet computes a matching Finished (no Certificate / no CertificateVerify, empty certificate list) are not generated; message removal by a man in the middle is C04's business. With VerifyClientCertIfGiven a client that presents nothing is accepted.",
-   technique="deterministic simulation: enumeration of single authentication deviations by a rogue peer against a policy predicate"),
+   text="Every combination of honest role, version, credential type, verification policy and single authentication deviation (341 cases) is executed against a Byzantine peer: the real library with credentials or a signing key that deviate in exactly one way (wrong CA, name, validity window at the virtual clock, foreign private key, corrupted or mis-targeted signature through a custom crypto.Signer, the victim's chain hidden behind the rogue's own certificate, a signature forged from the public key under a mismatching scheme, missing certificate, wrong PSK or identity), a DTLS 1.3 client whose final flight is replaced by a forged ACK, and a scripted DTLS 1.3 server built on the independent reference implementation that leaves out Certificate and/or CertificateVerify; on a clean link and under loss/duplication/reordering of the rogue's flights. An independent predicate over policy and deviation decides whether the honest side may succeed.",
+   note="Deviations that need a peer which omits a message yet computes a matching Finished are scripted for DTLS 1.3 servers only (refdtls key schedule); the DTLS 1.2 equivalents (no Certificate / no CertificateVerify from a scripted peer) are not generated, message removal by a man in the middle being C04's business. With VerifyClientCertIfGiven a client that presents nothing is accepted.",
+   technique="deterministic simulation: enumeration of single authentication deviations by a Byzantine peer (real library with rogue credentials, or scripted on an independent reference implementation) against a policy predicate"),
  "C04": dict(level="fault_enumeration", design="§5 C04",
    text="A man in the middle inside the simulated network rewrites every copy of one cleartext handshake message with one deterministic function (field-level for hellos, bit-level for the other messages), for every message type of each handshake mode, crossed with key exchange, EMS policy, resumption and hello verification; if an altered copy went through, no endpoint may report success.",
    note="Only messages that travel in a single fragment are rewritten (configurations are chosen so that they do). HelloVerifyRequest is not a target: it is outside the Finished hash by design (RFC 6347 4.2.1). DTLS 1.3 messages after ServerHello are encrypted and cannot be rewritten by an on-path attacker.",
